@@ -53,6 +53,11 @@ impl Prop for C04P {
                         v.push(Recv::window(pc, pr, s, e).enc());
                     }
                 }
+                for (c, r) in crate::engine::util::shapes(4) {
+                    if c > 0 {
+                        v.push(Recv::direct_long(c, r).enc());
+                    }
+                }
                 // a sample of nested windows: every window of the central 3x3 window of a 5x5 parent
                 for (s2, e2) in windows_nonempty(3, 3) {
                     v.push(Recv::nested(5, 5, (1, 1), (4, 4), s2, e2).enc());
@@ -64,6 +69,11 @@ impl Prop for C04P {
                         for (s, e) in windows_nonempty(pc, pr) {
                             v.push(Recv::window(pc, pr, s, e).enc());
                         }
+                    }
+                }
+                for (c, r) in crate::engine::util::shapes(5) {
+                    if c > 0 {
+                        v.push(Recv::direct_long(c, r).enc());
                     }
                 }
                 for (pc, pr) in [(5, 5), (4, 5), (5, 4)] {
@@ -144,7 +154,7 @@ impl Prop for C04P {
         }
     }
     fn rule(&self) -> String {
-        "for every non-empty window (interior, touching each edge, single row/column; nested windows too) of the listed parents and every mutating trait operation with every valid argument \
+        "for every non-empty window (interior, touching each edge, single row/column; nested windows too) of the listed parents, and for views built with TooDeeViewMut::new over a slice longer than cols*rows, and every mutating trait operation with every valid argument \
          (indexed writes, fill, swap/swap_rows/swap_cols/row_pair_mut, writes through rows_mut/col_mut/cells_mut forwards, backwards and via nth/nth_back, copy_from_slice/clone_from_slice/copy_from_toodee/clone_from_toodee from owned and strided sources, copy_within for all rectangles and destinations, all eleven sort entry points x every index x five key patterns, translate_with_wrap for all mids, flips) plus a few invalid tuples: \
          (a) every parent cell outside the rectangle is unchanged, (b) the cells inside equal the result of the same call on an owned TooDee holding the same cells, (c) the call panics on the view iff it panics on the owned array. \
          A case is (receiver, key pattern, operation); non-trivial = accepted call; distinct by all three."
